@@ -117,6 +117,21 @@ def oracle_c15(line, impl, model_kv, impl_kv=None, model=None):
             if int(f[6], 16) != want: return "entry %d does not report the encoded immediate" % i
             k += 1; i += 1
         if i != len(ents): return "more entries than instructions"
+        # names: the mnemonic of the opcode (the model's name table is the documented one: C15_names)
+        if model and model.startswith("ok"):
+            ments = [e for e in model[3:].split(";") if e] if len(model) > 3 else []
+            for j, (a, b) in enumerate(zip(ents, ments)):
+                if a.split("~")[1] != b.split("~")[1]:
+                    return "entry %d is named '%s', the mnemonic of opcode 0x%s is '%s'" % (j, a.split("~")[1], a.split("~")[0], b.split("~")[1])
+        # texts: read back by the assembler model (proved to implement the documented syntax), the texts must denote the
+        # program's instructions with the fields the syntax cannot express cleared (RtSpec.canon; C16_canonical), whenever
+        # the syntax can express them at all
+        ta, tm, cn = model_kv.get("textasm"), model_kv.get("mtextasm"), model_kv.get("canon")
+        if ta is not None and cn not in (None, "none"):
+            if ta not in ("err", "panic") and ta != cn:
+                return "the entries' texts do not render the operands in the assembler's syntax: read back they give '%s', the instructions are '%s'" % (ta[:80], cn[:80])
+            if ta in ("err", "panic") and tm == cn:
+                return "the entries' texts are not in the assembler's syntax (read back: %s) although the syntax can express these operands" % ta
     return None
 
 # ---------------------------------------------------------------------------- registry
@@ -541,7 +556,8 @@ def run_property(core, pid, tier, seed, replay):
                 ek = e + ":" + ikv[e].split(":")[0].split("=")[0]
                 dist[ek] = dist.get(ek, 0) + 1
         why = None
-        if "viol" in ikv: why = ikv["viol"]
+        if impl == "hang": why = "the implementation did not return (no output for the idle timeout; the harness was killed inside this case)"
+        elif "viol" in ikv: why = ikv["viol"]
         elif "spec" in mkv and mkv["spec"] != impl: why = "implementation gives '%s' where the property's specification gives '%s'" % (impl, mkv["spec"])
         elif cfg.get("oracle"): why = cfg["oracle"](line, impl, mkv, ikv, mod)
         if why is None and impl != mod and cfg.get("model_is_spec"):
@@ -586,7 +602,7 @@ def run_property(core, pid, tier, seed, replay):
         samples.append(dict(case=lines[i][:400], impl=impl_lines[i][:200]))
     write_evidence(pid, tier, seed, cfg, proof, lines, samples[:10], dist, t0, len(pviol) + (1 if (mism or violations) and not pviol else 0),
                    dict(known_findings_hit=known_hit, disagreements=len(mism), distinct_nontrivial=len(nontriv),
-                        traces=min(len(impl_lines), len(model_lines))))
+                        traces=min(len(impl_lines), len(model_lines)), max_gap=round(core.MAX_GAP, 2)))
     return rc
 
 def write_replay(pid, detail):
@@ -608,6 +624,7 @@ def write_evidence(pid, tier, seed, cfg, proof, lines, samples, dist, t0, nviol,
         known_findings_hit=extra.get("known_findings_hit", {}),
         theorems={t: ax for t, ax in proof.get("axioms", {}).items()},
         proof_failures=[list(f) for f in proof["failures"]],
+        longest_case_s=extra.get("max_gap", 0),
     )
     if cfg.get("exhaustive"): cov["exhaustive"] = True
     ev = dict(property_id=pid, tier=tier, seed=seed, level=cfg["level"], coverage=cov,
